@@ -6,8 +6,18 @@ import os
 
 # every module can be the target module of a case: each defines the same functions / methods
 FUNCS = '''
+import functools
+
 
 def z0():
+    return None
+
+
+def p3(a, /, *rest, k=3):
+    return None
+
+
+def p5(a, /, b, *rest, k=3, **kw):
     return None
 
 
@@ -37,6 +47,10 @@ class K:
 
     def m1(self, a, b=None):
         return None
+
+    @functools.cached_property
+    def cp0(self):
+        return None
 '''
 
 # name -> (params [(name, default kind 0 none / 1 None / 2 other)], has_self)
@@ -50,7 +64,15 @@ FUNC_SHAPES = {
         ([("first_parameter", 0), ("second_parameter", 1)], False),
     "K.m0": ([("self", 0), ("a", 0)], True),
     "K.m1": ([("self", 0), ("a", 0), ("b", 1)], True),
+    # a functools.cached_property method: MonkeyType (without Django) knows no such decorator, it is a plain method
+    "K.cp0": ([("self", 0)], True),
+    # parameter kinds other than positional-or-keyword are encoded as 10 * kind + default kind (1 positional-only,
+    # 2 *args, 3 keyword-only, 4 **kwargs); the text-level model does not render them (C12's model does): for these
+    # functions only the implementation's own stub is parsed, evaluated and judged
+    "p3": ([("a", 10), ("rest", 20), ("k", 32)], False),
+    "p5": ([("a", 10), ("b", 0), ("rest", 20), ("k", 32), ("kw", 40)], False),
 }
+UNMODELLED = {"p3", "p5"}
 LONG = "a_function_with_a_rather_long_name_so_that_the_signature_has_to_be_wrapped_at_120_columns"
 
 MODULES = {
@@ -72,6 +94,8 @@ MODULES = {
     "zed": "class Z:\n    pass\n",
     "zed.a": "class ZA:\n    pass\n",
     "zed.a.b": "class ZAB:\n    pass\n",
+    # a module whose dotted path has a component called `typing`
+    "zed.typing": "class Shape:\n    pass\n",
 }
 
 # the class pool; order fixes the class numbering (>= 16 in order of first registration)
@@ -92,6 +116,7 @@ POOL = [
     ("_thread", "RLock"), ("_struct", "Struct"), ("_csv", "Dialect"), ("_random", "Random"), ("_queue", "SimpleQueue"),
     ("shapes", "Registry"), ("shapes", "Registry.Entry"), ("shapes", "Registry.Pair"), ("shapes", "K"),
     ("zed", "Z"), ("zed", "K"), ("zed.a", "ZA"), ("zed.a", "K"), ("zed.a.b", "ZAB"), ("zed.a.b", "K"),
+    ("zed.typing", "Shape"), ("zed.typing", "K"),
 ]
 TARGETS = list(MODULES)
 # standard-library modules whose name starts with an underscore (types of threading.RLock(), struct.Struct(...), ...)
